@@ -1,6 +1,7 @@
 SPECIFICATION Spec
 CONSTANTS MaxBlock = 2 MaxOps = 5 MaxLen = 0
   Ms = {1}
+  Takes = {0}
   SplitBufs <- SplitBufsQuick
   Variant = "legacy"
 INVARIANT RunIsBlocks
